@@ -124,6 +124,16 @@ func finalizeAndRespond(r responder.Responder, resp io.Reader, status int, req *
 	return nil
 }
 
+// Sets the validators stored with a cached response; a validator the origin did not send is not emitted.
+func setValidatorHeaders(r responder.Responder, info cachedRequestInfo) {
+	if info.ETag != "" {
+		r.SetHeader("ETag", info.ETag)
+	}
+	if !info.LastModified.IsZero() {
+		r.SetHeader("Last-Modified", info.LastModified.Format(http.TimeFormat))
+	}
+}
+
 func (p *Proxy) handleRangeRequest(r responder.Responder, req *http.Request, cached *cache.Entry[cachedRequestInfo], key cache.CacheKey, clientHd *headers.HeaderDirectives) error {
 	rangeHeader := clientHd.Range.Value()
 	start, end, err := rangeHeader.SliceSize(cached.Metadata.Size)
@@ -168,7 +178,7 @@ func (p *Proxy) handleRangeRequest(r responder.Responder, req *http.Request, cac
 		} else {
 			// IfRange is Time
 			timeIfRange := ifRange.ForceUnwrapRight()
-			if timeIfRange.Before(cached.Metadata.Object.LastModified) {
+			if cached.Metadata.Object.LastModified.IsZero() || timeIfRange.Before(cached.Metadata.Object.LastModified) {
 				slog.Info("If-Range does not match cached Last-Modified. Sending full 200 response.", "url", req.URL, "key", key)
 				return ErrIfRangeMismatch
 			}
@@ -183,8 +193,7 @@ func (p *Proxy) handleRangeRequest(r responder.Responder, req *http.Request, cac
 	r.SetHeader("Accept-Ranges", "bytes")
 	r.SetHeader("Content-Range", fmt.Sprintf("bytes %d-%d/%d", start, end, cached.Metadata.Size))
 	r.SetHeader("Content-Length", fmt.Sprintf("%d", length))
-	r.SetHeader("ETag", cached.Metadata.Object.ETag)
-	r.SetHeader("Last-Modified", cached.Metadata.Object.LastModified.Format(http.TimeFormat))
+	setValidatorHeaders(r, cached.Metadata.Object)
 
 	sections := io.NewSectionReader(cached.Data, start, length)
 	return finalizeAndRespond(r, sections, http.StatusPartialContent, req)
@@ -255,8 +264,7 @@ func (p *Proxy) processRequest(r responder.Responder, req *http.Request, key cac
 
 		r.SetHeaders(fetched.Cached.Entry.Metadata.Object.Header)
 		r.SetHeader("Accept-Ranges", "bytes")
-		r.SetHeader("ETag", fetched.Cached.Entry.Metadata.Object.ETag)
-		r.SetHeader("Last-Modified", fetched.Cached.Entry.Metadata.Object.LastModified.Format(http.TimeFormat))
+		setValidatorHeaders(r, fetched.Cached.Entry.Metadata.Object)
 		addCacheHeaders(r, req, typeutils.Some(fetched.Cached.Entry), fetchResultToCacheStatus(fetched))
 
 		slog.Debug("Serving cached response", "url", req.URL, "key", key)
